@@ -309,7 +309,11 @@ def check_who_may_call(model, rep):
                statement='loop-escape')
     a = model.func('evaluable:Add._compile')
     ifs = [s for s in a.body if isinstance(s, ast.If)]
-    ok = len(ifs) == 1 and 'builder.ndependents[func] == 1' in src(ifs[0].test) and '_compile_with_out != Array._compile_with_out' in src(ifs[0].test)
+    # the test may delegate to a local predicate (def or lambda) of the same function: its body counts as part of the test
+    local_preds = [d for d in ast.walk(a.node) if (isinstance(d, ast.FunctionDef) and d is not a.node) or isinstance(d, ast.Lambda)]
+    ttxt = src(ifs[0].test) + ' ' + ' '.join(src(d) for d in local_preds if isinstance(d, ast.Lambda) or d.name in src(ifs[0].test)) if ifs else ''
+    ttxt += ' ' + ' '.join(src(resolved(a.node, n_)) for n_ in ast.walk(ifs[0].test) if isinstance(n_, ast.Name)) if ifs else ''
+    ok = len(ifs) == 1 and 'any(' in src(ifs[0].test) and 'builder.ndependents[func] == 1' in ttxt and '_compile_with_out != Array._compile_with_out' in ttxt
     rep.ob('R02.3', a.key, a.where(), ok, 'Add starts an in-place chain only for a term with exactly one dependent that implements the protocol' if ok else 'the condition under which Add compiles in place changed', statement='add-inplace-condition')
 
 
